@@ -426,6 +426,7 @@ pub fn run(run: &Run) {
     idx.par_iter().for_each(|&oi| {
         let es: Vec<Entry> = outlines[oi].iter().map(|i| entries[*i].clone()).collect();
         let o = make_outline(&es);
+        let _w = run.watch("outline", "proof_outline", &o.text);
         for (ti, t) in tasks.iter().enumerate() {
             let mut t2 = t.clone();
             t2.po = o.text.clone();
